@@ -5,6 +5,16 @@ import json, subprocess, os
 ROOT = os.path.dirname(os.path.abspath(__file__))
 
 CHECKS = {
+ "C14": dict(
+  technique="exhaustive context x probe-value enumeration + rapid nested expressions whose leaves are side-effecting probes (calls printing a tag, assignments used as expressions), oracle = reference evaluator on the tag trace and the printed result",
+  text="Every binary and logical operator spelling x every ordered pair of 18 probe values (every value kind, both truthiness classes, NaN, -0, empty string by literal and by concatenation), every condition/!/logical context x every probe value, 15 three-probe contexts (array and object literals, call arguments, var lists, index read/store, property store, mixed precedence, nested calls) x 64 value triples, store/callee/assignment-order contexts, and random nestings with 2-8 probes: the tag trace must be the left-to-right reading order with each tag once, skipped operands must not appear, logical operators yield the deciding operand itself, and the truthiness table is the same in conditions, ! and logical operators. Exploration.",
+  note="Trusted: the reference evaluator (order decisions fixed in DESIGN.md appendix A). Where an operation fails the order of the failure against remaining operands' effects is not asserted.",
+  ref="4 C14"),
+ "C17": dict(
+  technique="exhaustive built-in x arity x argument-kind matrix + permutation enumeration for min/max + rapid random doubles, oracle = independent exact computations (sign-bit abs, big.Float-verified sqrt, exact-rational round-half-away), 1-ulp tolerance for pow/sin/cos/tan, metamorphic ঘাত(a,b) == a ** b, clock window",
+  text="All 17 built-ins x 0-2 arguments over every combination of 37 argument producers (every kind; +-0, +-0.5, +-1.5, +-2.5, 0.49999999999999994, 2^52+-0.5, 2^53, 1e308, tiny, negative for sqrt, +-Inf, NaN, numeric-looking strings, nested/mixed arrays) and a covering sample of 3-4 arguments; সর্বনিম্ন/সর্বোচ্চ over every permutation of every subset of <=4 of 5 numbers in list and array form; random doubles for every math function; ক্লক() within 60 s of the harness clock. Wrong count / wrong kind / nothing to compare must be runtime errors with no value printed. Exploration.",
+  note="Trusted: math/big, the platform math library as reference for pow/sin/cos/tan (1 ulp). Unspecified: numeric-looking strings, min/max with NaN or zeros of different sign.",
+  ref="4 C17"),
  "C11": dict(
   technique="model-based operation histories compiled into programs: complete decision-tree walk for short histories + rapid random histories (3-40 actions) on three arrays with shared ancestry, oracle = pure list model with reference identity, every live array and its লেন printed after every step",
   text="Histories of literal creation (incl. nested arrays), aliasing by assignment / as an element / read back / through a function parameter, indexed read and write, লেন used as a number (arithmetic, as an index, as a loop bound, in ==), এড with 1-3 extras (result kept in a new or existing variable, or dropped) and রিমুভ at every valid index; every history of 2 (quick) / 3 (thorough) actions over a reduced alphabet plus random long ones; 29 faulting operations (negative, too-large, fractional, nil, boolean, string, array indexes for read/write/রিমুভ; built-ins on non-arrays) end a history and must be runtime errors with nothing printed afterwards. The full trace is compared with the model after every step. Exploration.",
